@@ -306,11 +306,23 @@ class Gen(object):
                     start_e = num(r.randint(0, off))  # overlap / union
             else:
                 start_e = dyn_off if (r.random() < 0.5 or not any(g.kind != "virtual" for g in fields)) else ref("$next")
+            odd_start = False
+            if self.p["allow_dynamic"] and fields and r.random() < 0.07:
+                cands = [x for x in self.small_srcs(srcs, 255) if len(x.path) == 1 and x.hi - x.lo >= 8]
+                if cands:
+                    x = r.choice(cands)
+                    # an offset that can be negative at run time (checked when the field is accessed)
+                    start_e = op("-", ref(*x.path), num(r.randint(1, 4))) if r.random() < 0.7 else \
+                        op("-", num(r.randint(0, 6)), ref(*x.path))
+                    odd_start = True
             start_const = start_e[1] if start_e[0] == "num" else (off if start_e == ref("$next") and off is not None else None)
             small = [x for x in self.small_srcs(srcs, 255) if x.lo >= 0]
 
             def advance(size_const, size_e):
                 nonlocal off, dyn_off, any_dynamic
+                if odd_start:
+                    any_dynamic = True  # no `$next` after a field at a computed offset
+                    return
                 if cond is not None and (size_const is None or off is None):
                     # a conditional dynamic field: following fields use explicit offsets from before it
                     if off is not None:
